@@ -229,6 +229,7 @@ func (a *CBOAnalyzer) isTypeAnnotation(node *parser.Node) bool {
 		node.Type == parser.NodeTypeNode ||
 		node.Type == parser.NodeGenericType ||
 		node.Type == parser.NodeTypeParameter ||
+		node.Type == parser.NodeUnionType ||
 		node.Type == parser.NodeBinOp // Union type: X | Y (Python 3.10+)
 }
 
@@ -247,12 +248,14 @@ func (a *CBOAnalyzer) extractTypeAnnotationDependencies(node *parser.Node, depen
 			}
 		}
 	case parser.NodeSubscript:
-		// Generic type: List[User], Dict[str, User]
-		// For generics, we want to extract the type parameters, not the container
-		if node.Right != nil {
-			a.extractTypeAnnotationDependencies(node.Right, dependencies, result)
-		} else if len(node.Children) > 1 {
-			a.extractTypeAnnotationDependencies(node.Children[1], dependencies, result)
+		// Generic type written as an expression: typing.List[User], or
+		// Dict[str, User] as operand of a union
+		// For generics, we want to extract the type parameters, not the container:
+		// the parser keeps the container in Value and the parameters in Children
+		for _, child := range node.Children {
+			if child != nil && a.isTypeAnnotation(child) {
+				a.extractTypeAnnotationDependencies(child, dependencies, result)
+			}
 		}
 	case parser.NodeAttribute:
 		// Module.Type: typing.List, mymodule.MyClass
@@ -266,8 +269,9 @@ func (a *CBOAnalyzer) extractTypeAnnotationDependencies(node *parser.Node, depen
 				result.TypeHintDependencies++
 			}
 		}
-	case parser.NodeTypeNode:
-		// Tree-sitter 'type' node - recurse into children
+	case parser.NodeTypeNode, parser.NodeUnionType:
+		// Tree-sitter 'type' node, or 'union_type' node (List[User] | None:
+		// a union whose first member is a generic) - recurse into children
 		for _, child := range node.Children {
 			if child != nil && a.isTypeAnnotation(child) {
 				a.extractTypeAnnotationDependencies(child, dependencies, result)
@@ -490,23 +494,18 @@ func (a *CBOAnalyzer) extractClassName(node *parser.Node) string {
 	case parser.NodeName:
 		return node.Name
 	case parser.NodeAttribute:
-		// Handle module.ClassName
-		if node.Left != nil && node.Right != nil {
-			left := a.extractClassName(node.Left)
-			right := a.extractClassName(node.Right)
-			if left != "" && right != "" {
-				return left + "." + right
+		// Handle module.ClassName: the parser keeps the object in Value
+		// and the attribute name in Name
+		if objNode, ok := node.Value.(*parser.Node); ok && node.Name != "" {
+			if left := a.extractClassName(objNode); left != "" {
+				return left + "." + node.Name
 			}
 		}
 	case parser.NodeSubscript:
-		// Handle generic types like List[User], Dict[str, User]
-		// For subscripts, the type parameter is typically in Right field or Children
-		if node.Right != nil {
-			return a.extractClassName(node.Right)
-		}
-		// Fallback to checking children for the subscript content
-		if len(node.Children) > 1 {
-			return a.extractClassName(node.Children[1])
+		// Handle parametrised classes like Repository[User]: the class is
+		// the subscripted object, which the parser keeps in Value
+		if valueNode, ok := node.Value.(*parser.Node); ok {
+			return a.extractClassName(valueNode)
 		}
 	}
 
@@ -590,6 +589,10 @@ func (a *CBOAnalyzer) extractClassNameFromCallNode(callNode *parser.Node) string
 			if valueNode.Type == parser.NodeName && valueNode.Name != "" {
 				return valueNode.Name
 			}
+			if valueNode.Type == parser.NodeAttribute {
+				// Attribute access: module.Class()
+				return a.extractClassNameFromAttribute(valueNode)
+			}
 		}
 	}
 
@@ -602,25 +605,9 @@ func (a *CBOAnalyzer) extractClassNameFromAttribute(attrNode *parser.Node) strin
 		return ""
 	}
 
-	// For module.Class pattern, we want the rightmost name (Class)
-	// but for full qualification, we might want module.Class
-
-	// Get the rightmost part (the actual class name)
-	if attrNode.Right != nil && attrNode.Right.Type == parser.NodeName {
-		rightName := attrNode.Right.Name
-
-		// Get the left part (module name) if needed
-		if attrNode.Left != nil && attrNode.Left.Type == parser.NodeName {
-			leftName := attrNode.Left.Name
-			// Return full qualification for better accuracy
-			return leftName + "." + rightName
-		}
-
-		// Return just the class name if no module prefix
-		return rightName
-	}
-
-	return ""
+	// For module.Class pattern, return the full qualification (module.Class)
+	// for better accuracy
+	return a.extractClassName(attrNode)
 }
 
 // isImportedDependency checks if a dependency comes from imports
